@@ -347,3 +347,12 @@ Proof.
   - intros s Hs. assert (In (sid s) (ids_upto (length h))) by (eapply Permutation_in; [exact Hi|apply in_map; assumption]).
     apply in_ids_upto in H. lia.
 Qed.
+
+(* alignment 0 is stored as 1 and a new section has no offset yet *)
+Lemma new_section_zero_align h nm ord : Z.of_nat (length nm) <= MAX_NAME ->
+  exists s, In s (snd (new_section h nm 0 ord)) /\ salign s = 1 /\ soff s = NO_OFFSET.
+Proof.
+  intros H. unfold new_section. cbn [is_zero_or_pow2 Z.eqb orb negb].
+  destruct (Z.ltb_spec MAX_NAME (Z.of_nat (length nm))); [lia|]. cbn [snd].
+  eexists. split; [apply insert_sorted_in; left; reflexivity|]. split; reflexivity.
+Qed.
